@@ -157,7 +157,8 @@ def judge(d):
                 full = loader.load(row, output_shape=big)
                 want = blocksum(full, b)
                 e = float(np.abs(small - want).max())
-                if not e <= 1e-4 * (float(np.abs(want).max()) + 1e-9):
+                # relative to the magnitude of what is summed (b^3 terms that may cancel), not of the sum itself
+                if not e <= 1e-4 * (float(blocksum(np.abs(full), b).max()) + 1e-9):
                     out.append(viol("C15/subtomogram-not-blocksum", f"{tag}: molecule {i}: binned subtomogram differs from the block sum of the "
                                     f"{big} subtomogram by {e:.3g} (binned px pos {np.round(got_px[row], 3).tolist()})", err=e))
                     break
